@@ -482,8 +482,32 @@ def einx_dir():
     return EINX_DIR
 
 
+_CLEANUP_OFFSETS = {}
+
+
+def cleanup_offsets(code):
+    """Instruction offsets of `code` that belong to the exit sequence of a with statement: the call
+    __exit__(None, None, None) after the body and the exception handler that calls __exit__(*exc_info).
+    A `line` event there (the with header's line is visited again) is inside the cleanup handler."""
+    r = _CLEANUP_OFFSETS.get(code)
+    if r is None:
+        import dis
+
+        r = set()
+        ins = list(dis.get_instructions(code))
+        for i, x in enumerate(ins):
+            if x.opname in ("PUSH_EXC_INFO", "WITH_EXCEPT_START", "RERAISE", "POP_EXCEPT", "CLEANUP_THROW"):
+                r.add(x.offset)
+            if x.opname == "LOAD_CONST" and x.argval is None and i + 3 < len(ins) and [y.opname for y in ins[i + 1:i + 4]] == ["LOAD_CONST", "LOAD_CONST", "CALL"] \
+                    and ins[i + 1].argval is None and ins[i + 2].argval is None:
+                r.update(y.offset for y in ins[i:i + 5])
+        _CLEANUP_OFFSETS[code] = r
+    return r
+
+
 class fault_async:
-    """Raise InjectedAbort on the k-th `line` event in einx files (excluding cleanup frames)."""
+    """Raise InjectedAbort on the k-th `line` event in einx files (excluding cleanup frames and the
+    exit sequence of with statements: an exception delivered there defeats any with statement)."""
 
     def __init__(self, k):
         self.k = k
@@ -504,6 +528,8 @@ class fault_async:
 
     def _local(self, frame, event, arg):
         if event == "line":
+            if frame.f_lasti in cleanup_offsets(frame.f_code):
+                return self._local
             self.count += 1
             if self.count == self.k and not self.fired:
                 self.fired = 1
